@@ -120,7 +120,7 @@ Definition flow_re (o : op) : re :=
   match o with
   | OpToken GAuthorizationCode _ => seqs [cg; Ch KAGet; Alt (Ch KGDelByCode) (Seq (Ch KADel) (Ch KGSave))]
   | OpToken GRefreshToken _ => seqs [cg; Ch KGGet; Alt (Ch KGDel) (Ch KGSave)]
-  | OpToken GClientCredentials _ => seqs [cg; Ch KGSave]
+  | OpToken GClientCredentials _ | OpToken GJwtBearer _ => seqs [cg; Ch KGSave]
   | OpToken GCiba _ => seqs [cg; Ch KAGet; Ch KADel; Ch KGSave]
   | OpToken _ _ => Eps
   | OpIntrospect _ => seqs [cg; Ch KGGet]
